@@ -63,3 +63,10 @@ claim("C15", "buslog", "exploration",
 claim("C18", "inputs", "exploration",
       "A structural generator produces SDL v2 descriptions D (services x profiles x placements x exposes, all unit suffixes, decimal quantities), renders them to YAML with its own emitter and 4 mapping-key permutations each; expected groups and manifest are computed from D with exact rational arithmetic and compared field by field with the parser's outputs; Read twice and on every permutation must give deep-equal groups/manifest and the same version hash; the manifest must validate against its own groups.",
       INPUT_NOTE, "differential oracle (expectation computed from the generator's description) + metamorphic key-permutation check", "DESIGN.md §5 C18")
+
+EVLOOP_NOTE = ("Trusted base: the tag-guarded loop-top hook (one line per loop), the Stepper/Gates harness and the scripted collaborators (cluster client, hostname service, chain query/tx client), which are the environment, never the component under observation. "
+               "Stepping makes exactly one loop input ready at a time; simultaneous readiness and Go's random select choice are only sampled by the free-running runs (also under -race).")
+
+claim("C14", "evloop", "exploration",
+      "All enabled sequences over {manifest update, lease closed, hostnames reserved/refused, deploy ok/error, teardown ok/fails-once, shutdown} up to length 4 (quick) / 6 (thorough) are executed, each on a fresh real deploymentManager stepped one message at a time, and the scripted-collaborator call log is judged: cluster operations never overlap, no deploy starts after teardown() was accepted, a closed lease is torn down after its last deploy and its hostnames are released, the last deploy carries the latest manifest. Bounded-exhaustive over message orders; plus randomized free-running schedules.",
+      EVLOOP_NOTE, "systematic schedule enumeration of the real event loop via loop-top hook + scripted collaborators; call-log (trace) monitor; race detector auxiliary", "DESIGN.md §5 C14")
